@@ -129,32 +129,27 @@ func (k Keeper) AdjustPool(
 		}
 	}
 
-	// Calculate remaining available reward
-	availableReward := rules.TotalReward()
-	if pool.Started(ctx) {
-		remainingHeight := pool.EndHeight - startHeight
-		remainingReward := sdk.NewCoins()
-		for i := range rules {
-			remainingReward = remainingReward.Add(
-				sdk.NewCoin(
-					rules[i].Reward,
-					rules[i].RewardPerBlock.Mul(math.NewInt(remainingHeight)),
-				),
-			)
+	// Calculate remaining available reward, one entry per reward rule
+	// (a coin set would silently drop the denominations whose amount is zero)
+	availableReward := make([]math.Int, len(rules))
+	for i := range rules {
+		availableReward[i] = rules[i].TotalReward
+		if pool.Started(ctx) {
+			remainingHeight := pool.EndHeight - startHeight
+			availableReward[i] = rules[i].RewardPerBlock.
+				MulRaw(remainingHeight).
+				Add(reward.AmountOf(rules[i].Reward))
 		}
-		availableReward = remainingReward.Add(reward...)
 	}
 
 	pool.Rules = rules.UpdateWith(rewardPerBlock)
 	k.SetRewardRules(ctx, pool.Id, pool.Rules)
 
 	// expiredHeight = [(srcEndHeight-beginPoint)*srcRewardPerBlock +appendReward]/RewardPerBlock + beginPoint
-	rewardsPerBlock := types.RewardRules(pool.Rules).RewardsPerBlock()
-	availableHeight := availableReward[0].Amount.Quo(rewardsPerBlock.AmountOf(availableReward[0].Denom)).Int64()
-	for _, c := range availableReward[1:] {
-		rpb := rewardsPerBlock.AmountOf(c.Denom)
-		inteval := c.Amount.Quo(rpb).Int64()
-		if availableHeight > inteval {
+	var availableHeight int64
+	for i := range pool.Rules {
+		inteval := availableReward[i].Quo(pool.Rules[i].RewardPerBlock).Int64()
+		if i == 0 || availableHeight > inteval {
 			availableHeight = inteval
 		}
 	}
